@@ -5,7 +5,7 @@ HOOKS = {
     'enable': 'every harness TU and /repo/src/*.cpp are compiled with -DKHIZMAX_LIBCDS_VERIF -I/verif/include -I/repo (tools/gen_ninja.py); '
               'the guard makes cds/algo/atomic.h alias `atomics` to cds_verif::atomics (instrumented std::atomic wrapper calling the perturbation engine)',
     'baseline_off_cmd': 'sh tools/baseline_off.sh',
-    'source_commits': ['1de2e61'],
+    'source_commits': ['1de2e61'],   # fix: commits (not hooks): 6b2711f
     'add_only': True,
 }
 
@@ -26,7 +26,29 @@ NOT_APPLICABLE = {}
 LIN_NOTE = ('trusted base: the harness adapters, the WGL checker and sequential model (include/cdsv), x86-64 TSO, g++ 12 sanitizer runtimes; '
             'executions are sampled by seeded programs and injected delays, not enumerated')
 
+SMR_NOTE = ('trusted base: the harness (object arena, side-table ledger, logical clock), x86-64 TSO, g++ 12 ASan/LSan runtime; schedules are sampled '
+            '(delays injected before every libcds atomic operation, thread churn, tiny retired arrays), not enumerated; memory-order-only weakenings that x86 does not turn into a different execution are out of reach')
+
 CHECKS = {
+    'C01': {
+        'technique': 'runtime monitoring: guarded-object poison monitor + deterministic scan cases on real cds::gc::HP (classic and in-place scan), ASan build with really freed objects',
+        'level_text': 'Readers obtain objects from shared slots through every guard form (protect, protect(f), GuardArray, assign+re-check, copy, guarded_ptr) and keep reading the object\'s state mark while writers '
+                      'exchange the slot, retire the old object (both retire overloads) and scans / help-scans / thread detach-reattach run; a DISPOSED mark (or ASan use-after-free) under a live guard is a violation. '
+                      '16 configurations: scan type x hazard count {1,2,3,8} x even/odd addresses x thread limit x retired capacity; plus deterministic cases (n retired, protection pattern) checked after scan()',
+        'level_note': SMR_NOTE,
+    },
+    'C02': {
+        'technique': 'runtime monitoring: guarded-object poison monitor + deterministic scan cases on real cds::gc::DHP (extension guard blocks, retired-block growth, record reuse), ASan build',
+        'level_text': 'Same monitor as C01 on cds::gc::DHP: readers allocate up to 60 guards so the protecting guard sits in an extension block, writers retire bursts up to 600 objects between scans so retired lists '
+                      'grow past one block, threads detach with non-empty retired lists and short-lived threads re-use the records; 15 configurations (initial guard count 0/4/5/16/64)',
+        'level_note': SMR_NOTE,
+    },
+    'C03': {
+        'technique': 'runtime monitoring: exactly-once dispose ledger over every retired object of the HP and DHP workloads, checked after destruction of the singleton; eager-scan cases; LeakSanitizer',
+        'level_text': 'Every object retired in the C01/C02 workloads (10^7 per quick run) is followed in a side-table ledger: the disposer may run at most once (checked inside the disposer), must have run exactly once after '
+                      '~HP/~DHP, never for a non-retired object; deterministic eager clause: scan() with no guard on an object frees it, with a guard keeps it until released (n below/at/above array capacity and block size)',
+        'level_note': SMR_NOTE,
+    },
     'C06': {
         'technique': 'runtime monitoring: recorded concurrent histories checked by a WGL linearizability checker against a sequential FIFO model; ASan/UBSan; TSan payload happens-before monitor',
         'level_text': 'Every recorded round/segment history (2-4 threads, seeded programs, delays injected before every libcds atomic operation, tiny HP/DHP thresholds so nodes are reclaimed and reused) '
